@@ -393,7 +393,29 @@ def run_C14(run):
                       "tools/trace (tr_C14); coqc (Gen_C14, P_C14_general, P_C14_eps, Properties_C14); tools/corr/impl_C14 | coq/extract/corr_model")
 
 
-TABLE = {"C14": run_C14, "C18": run_C18, "C05": run_C05, "C07": run_C07, "C01": run_C01, "C13": run_C13, "C09": run_C09, "C04": run_C04, "C02": run_C02, "C10": run_C10, "C08": run_C08, "C17": run_C17, "C12": run_C12}
+# ------------------------------------------------------------------------------------------ C06
+def run_C06(run):
+    big = ["C06/P_C06_u16lit.v", "C06/P_C06_u16inv.v", "C06/P_C06_s16lit.v", "C06/P_C06_s16inv.v"]
+    run.prove([], ["C06/A_C06_defs.v"], ["C06/P_C06_small.v"] + big, "C06/Properties_C06.v", timeout=1200)
+    run.run_corr("impl_C06.cpp", [run.seed, run.tier])
+    run.run_corr("impl_C07.cpp", [run.seed, run.tier])            # the half formats (packHalf*): model GLMM.Half, theorems in C07
+    fails = oracle_sweep(run, "C06", [("all", ["-pthread"])], run.tier, opt="-O1")
+    cov6 = dict(run.cov)
+    fails += oracle_sweep(run, "C07", [("f16c", ["-mf16c", "-pthread"])], "thorough", opt="-O2")   # every float / half pattern against hardware F16C (5 s)
+    run.cov["oracle_cases"] = cov6.get("oracle_cases", 0) + run.cov.get("oracle_cases", 0)
+    run.fails = run.triage(fails)
+    run.assumptions = ["binary32 arithmetic in the model is Coq's executable IEEE-754 specification (Floats.SpecFloat: SFmul, SFdiv, SFltb, binary_normalize, prec 24, emax 128); the compiled code's float multiply / divide / compare / int-to-float conversion are assumed IEEE (checked on every run by the correspondence: every code of every field, structured and random floats)",
+                       "'packing any real x decodes within half a quantisation step', clamping of arbitrary out-of-range values and monotonicity of PACKING are NOT theorems: the oracle checks them on rounding midpoints and their float neighbours, range ends, random values, and (thorough tier) every non-NaN float pattern for the scalar pack functions",
+                       "packF3x9_E1x5 / unpackF3x9_E1x5 (libm log2, pow), packRGBM, the double-precision packUnorm/packSnorm templates and the vector packHalf overloads are not modelled: oracle only (decode values against ldexp, round trips, one mantissa step)",
+                       "NaN inputs of the normalised formats (float-to-integer conversion of NaN is undefined: property C20) and std::round under pre-C++11 fallbacks (property C15) are outside the statements",
+                       "half-precision formats (packHalf1x16/2x16/4x16, packHalf<L>): the theorems are property C07's; this check re-runs their correspondence and the complete F16C sweep"]
+    run.samples.append("correspondence: unpack on every code of every field of every format (16-bit fields of multi-field formats: every 7th code in the quick tier, all in the thorough tier) with random other fields; pack on code centres k/scale, rounding midpoints (k+0.5)/scale and both float neighbours, +-1 and neighbours, +-0, out-of-range and negative values, subnormals, +-inf, half a step, random values; integer formats on random words; every code of the 11/10-bit float fields and structured floats (normal range, negative, below 2^-14, above 65024, inf)")
+    return run.finish(TRUST_H + ["Coq.Floats.SpecFloat as the meaning of binary32 arithmetic", "oracle_C06.cpp: double / integer references (violation search; sole check of the items listed under assumptions)"],
+                      "theorems: every code (2^1..2^16) of every normalised field with both decode constants that occur in the source; every word of every format whose fields are canonical; every word of the integer formats; every code of the 11- and 10-bit float fields",
+                      "coqc (A_C06_defs, P_C06_small, P_C06_u16lit/u16inv/s16lit/s16inv, Properties_C06); tools/corr/impl_C06 | coq/extract/corr_model")
+
+
+TABLE = {"C06": run_C06, "C14": run_C14, "C18": run_C18, "C05": run_C05, "C07": run_C07, "C01": run_C01, "C13": run_C13, "C09": run_C09, "C04": run_C04, "C02": run_C02, "C10": run_C10, "C08": run_C08, "C17": run_C17, "C12": run_C12}
 
 
 def replay(pid, path):
